@@ -34,8 +34,11 @@ from pathlib import Path
 
 ROOT = Path(__file__).resolve().parent.parent
 REPO = os.environ.get("VERIF_REPO", "/repo")
-EVIDENCE_DIR = ROOT / "evidence"
-REPLAY_DIR = ROOT / "replays"
+# evidence/ and replays/ live beside the checks; sensitivity runs against a deliberately broken tree (tools/seed_eval.py,
+# tools/seed_recheck.py) redirect them so that they never overwrite evidence obtained from the real tree
+OUT = Path(os.environ.get("VERIF_OUT") or ROOT)
+EVIDENCE_DIR = OUT / "evidence"
+REPLAY_DIR = OUT / "replays"
 KNOWN_FINDINGS = ROOT / "KNOWN_FINDINGS.txt"
 MAX_SAMPLES = 6
 MAX_DIGESTS_PER_SHARD = 400_000
